@@ -368,6 +368,9 @@ class C12(Prop):
                 ks = some(0, 12)
                 if written and rng.random() < 0.6:
                     ks += rng.sample(written, min(len(written), 3))
+                if len(keys) >= 20 and rng.random() < 0.15:
+                    ks = list(keys)          # every key at once: dozens of keys per server in one call
+                    rng.shuffle(ks)
                 a = [E(ks)]
             elif m == "delete":
                 a = [E(key)]
